@@ -350,6 +350,7 @@ class BusCookieAuthenticator :
 
     def _step_two(self, response):
         self._delete_cookie()
+        self.cookieId = None
         hash_str = None
         shash = 1
         try:
